@@ -152,7 +152,8 @@ def check(prog: Program, tier: str) -> Result:
             "tokenizer (\\n, \\r\\n, \\r) while str.splitlines also splits at \\f \\v \\x1c-\\x1e \\x85 \\u2028 \\u2029; a "
             "list or table derived from splitlines must not be indexed by a value derived from an ast lineno. (R13.3) API "
             "derivations: findall is the projection of finditer to Match.string, search is its first element, the CLI "
-            "prints attributes of the same Match objects, Match.string is the source slice of its span. Not decided: the "
+            "prints attributes of the same Match objects, Match.string is the source slice of its span. (R13.4) match / fullmatch scan ALL "
+            "candidates (they arrive in tree-walk order): the only early exit is the return of an anchored candidate. Not decided: the "
             "decorator / whitespace adjustments of get_charnos and the span logic of match/fullmatch."),
         rule_text="instances = arithmetic / comparison / indexing expressions over position values, indexing of line lists, API wrapper derivations; non-trivial = expressions involving a byte column or an ast line number",
     )
@@ -217,7 +218,7 @@ def check(prog: Program, tier: str) -> Result:
                         res.ok("R13.2", fn.loc(n), fn.fq, short(n, 90), "line table built with the tokenizer's line separators, indexed by an ast line number")
     _r13_3(prog, res)
     _r13_4(prog, res)
-    res.floors.update({"R13.1": 3, "R13.2": 1, "R13.3": 4, "R13.4": 4})
+    res.floors.update({"R13.1": 3, "R13.2": 1, "R13.3": 4, "R13.4": 3})
     res.analysed.update({"position_expressions": n_expr, "functions_returning_positions": {f"{k[0]}.{k[1]}": v for k, v in sorted(ret_units.items())}})
     return res
 
@@ -383,7 +384,7 @@ VARIANTS: List[Variant] = [
 
 META = {
     "design_ref": "DESIGN.md section 3, C13",
-    "technique": "dimension typing (UTF-8 byte columns vs character offsets; tokenizer lines vs str.splitlines lines) + def-use checks of the API wrappers",
+    "technique": "dimension typing (UTF-8 byte columns vs character offsets; tokenizer lines vs str.splitlines lines) + def-use checks of the API wrappers + exit-shape check of the candidate scans of match / fullmatch",
     "level_text": ("Decides on the current source that no position computation mixes ast byte columns with character "
                    "offsets without conversion, that no splitlines-derived list or table is indexed by an ast line number, "
                    "and that findall/search/finditer/Match.string are the stated derivations. It does not decide the "
